@@ -1,5 +1,5 @@
 (* C19 — boolean case checkers used by the differential correspondence. *)
-From S2T Require Import Lib.PyStr C19.Model C19.Proofs C19.Depth.
+From S2T Require Import Lib.PyStr C19.Model C19.Proofs C19.Depth C19.Formulas.
 From Coq Require Import List NArith Bool PeanoNat.
 Import ListNotations.
 
@@ -22,3 +22,13 @@ Definition corr_case_d (T : tables) (V : variant) (c : omml * option str * str *
     corr_case T V (t, expected, exc)
     && match d with O => true | _ => Nat.eqb (conv_depth T t) d end
   end.
+
+(* formula collectors of docx_extractor / pptx_extractor: scope tree and the returned (latex, is_display) list *)
+Fixpoint res_eqb (a b : list (str * bool)) : bool :=
+  match a, b with
+  | [], [] => true
+  | (x, d) :: a', (y, e) :: b' => str_eqb x y && Bool.eqb d e && res_eqb a' b'
+  | _, _ => false
+  end.
+Definition formulas_case (T : tables) (c : omml * list (str * bool)) : bool :=
+  res_eqb (collect T (fst c)) (snd c).
